@@ -151,6 +151,22 @@ func check(c Case) error {
 		}
 	}
 	want := refclone.Rings(frags)
+	if c.Kind == "goldengate" {
+		// the same strings with the other topology first (every linear part declared circular and the other way round),
+		// result discarded: what a pool gives depends on the pool that is passed in
+		other := c
+		other.Parts = make([]PartSpec, len(c.Parts))
+		for i, p := range c.Parts {
+			other.Parts[i] = PartSpec{Seq: p.Seq, Circular: !p.Circular}
+		}
+		if finished, _ := vk.WithDeadline(30*time.Second, func() { _, _ = run(other, nil) }); !finished {
+			sub := subGoldenGate
+			if abortSub != nil {
+				sub = abortSub
+			}
+			vk.AbortCase(sub, other, vk.Errf("goldengate did not return within 30 s on the pool with every part's topology flag inverted"))
+		}
+	}
 	old := runtime.GOMAXPROCS(0)
 	defer runtime.GOMAXPROCS(old)
 	procs := c.Procs
